@@ -416,11 +416,12 @@ def main():
     ap = argparse.ArgumentParser(); ap.add_argument("--repo", default="/repo"); ap.add_argument("--functions", nargs="*", help="substrings of function[instantiation]")
     ap.add_argument("--budget", type=float, default=120.0); ap.add_argument("--json"); ap.add_argument("--procs", type=int, default=8); ap.add_argument("--stems", nargs="*")
     ap.add_argument("--recheck", help="replay file holding a verifier_counterexample: exit 1 while the input still violates the contract on the current source")
+    ap.add_argument("--props", nargs="*", help="only the records serving these properties")
     ap.add_argument("--xcheck", action="store_true", help="translation validation of the encoding: one natively executed input per path of the bounded execution")
     a = ap.parse_args(); mods = ["contracts.kernels"]
     for m in mods: importlib.import_module(m)
     if a.xcheck:
-        idxs = registry.select(only=a.functions, tier="thorough")
+        idxs = registry.select(only=a.functions, props=a.props, tier="thorough")
         with mp.get_context("spawn").Pool(min(a.procs, max(1, len(idxs)))) as pool: reps = pool.map(_xjob, [(i, a.repo, mods, a.budget) for i in idxs], chunksize=1)
         for r in reps:
             print(f"{r['function']:100s} {r.get('status'):14s} paths={r['paths_executed']} agree={r['agree']} disagree={len(r['disagree'])} skipped={r.get('skipped')} {r.get('wall_s', '')}s")
